@@ -301,6 +301,20 @@ class PrepareAst:
             return out.ResetPushed()
 
         if isinstance(result, _SelectWith):
+            # the keys are converted to the type of the selector,
+            # keys given in different spellings (3, "0011", Unsigned[4](3))
+            # that denote the same value would become identical choices
+            choices = [
+                _make_static_comparable(result.arg, cond)[1]
+                for cond in result.branches.keys()
+            ]
+
+            for nr, choice in enumerate(choices):
+                for other in choices[:nr]:
+                    assert not bool(
+                        other == choice
+                    ), f"select_with: more than one key denotes the value '{choice}'"
+
             if not isinstance(result.arg, _type_qualifier.TypeQualifierBase):
                 # constant selector: choose the branch at compile time
                 # (a with/select statement needs a signal or variable as selector)
